@@ -410,3 +410,50 @@ Proof.
   split; [split; [discriminate|intros _; vm_compute; discriminate]|].
   repeat split; try (vm_compute; reflexivity); vm_compute; discriminate.
 Qed.
+
+(* ---- placement order under randomize_placement_order (Grid/Shuffle.v, Proofs/Shuffle_proofs.v):
+   random.shuffle applies a permutation [p] that depends on the generator's stream and the length
+   only.  The repaired code shuffles the id-sorted list, so the order a reset leaves behind depends
+   on that reset's own shuffle and on the SET of agents only; the code as found (F15) shuffled the
+   order left behind by the previous reset and is refuted. ---- *)
+From Coq Require Import Permutation.
+From Abm Require Import Grid.Shuffle Proofs.Shuffle_proofs.
+
+Theorem C08_placement_order_indep : forall p cur1 cur2,
+    Permutation cur1 cur2 -> order_fixed p cur1 = order_fixed p cur2.
+Proof. exact order_fixed_indep. Qed.
+Print Assumptions C08_placement_order_indep.
+
+(* every agent is placed exactly once: the shuffled order is a permutation of the agents *)
+Theorem C08_placement_order_is_permutation : forall p cur,
+    Permutation p (seq 0 (length cur)) -> Permutation (order_fixed p cur) cur.
+Proof. exact order_fixed_perm. Qed.
+Print Assumptions C08_placement_order_is_permutation.
+
+(* any history of earlier resets, then one more: same order as on a newly built state *)
+Theorem C08_placement_order_used_vs_fresh : forall ps p cur,
+    good (length cur) ps ->
+    orders_fixed (ps ++ [p]) cur = order_fixed p cur.
+Proof. exact orders_fixed_used_vs_fresh. Qed.
+Print Assumptions C08_placement_order_used_vs_fresh.
+
+Theorem C08_placement_order_prefix_refuted :
+  exists p0 p cur, good (length cur) [p0; p] /\
+    orders_prefix ([p0] ++ [p]) cur <> order_prefix p cur.
+Proof. exact order_prefix_refuted. Qed.
+Print Assumptions C08_placement_order_prefix_refuted.
+
+Example C08_placement_order_nonvacuous :
+  good 4 [[2; 0; 3; 1]; [3; 2; 1; 0]] /\
+  orders_fixed ([[2; 0; 3; 1]; [3; 2; 1; 0]] ++ [[1; 3; 0; 2]]) [7; 5; 9; 6] = [6; 9; 5; 7] /\
+  order_fixed [1; 3; 0; 2] [7; 5; 9; 6] = [6; 9; 5; 7].
+Proof.
+  split; [|split; vm_compute; reflexivity].
+  repeat constructor.
+  - change (Permutation [2; 0; 3; 1] [0; 1; 2; 3]).
+    apply (Permutation_trans (l' := [0; 2; 3; 1])); [apply perm_swap|]. apply perm_skip.
+    apply (Permutation_trans (l' := [2; 1; 3])); [apply perm_skip, perm_swap|].
+    apply (Permutation_trans (l' := [1; 2; 3])); [apply perm_swap|]. apply Permutation_refl.
+  - change (Permutation [3; 2; 1; 0] [0; 1; 2; 3]).
+    apply Permutation_sym. change [3; 2; 1; 0] with (rev [0; 1; 2; 3]). apply Permutation_rev.
+Qed.
